@@ -34,10 +34,21 @@ def kw_class(k):
     return k.upper()
 
 
+def near_keyword(rng):
+    """an identifier that merely resembles a keyword: other case, a prefix, an extension, a wrapped form"""
+    k = rng.choice(KEYWORDS)
+    return rng.choice([k.lower(), k.upper(), k.capitalize(), k.swapcase(), k + rng.choice("x_0$"), rng.choice("x_$") + k, k[:-1], k[1:], k + k,
+                       k[:2].upper() + k[2:].lower(), k.replace("_", "__", 1), k.strip("_"), "_" + k.strip("_").lower(), "__" + k.strip("_") + "__"])
+
+
 def gen_ident(rng):
     while True:
         n = rng.choice([1, 1, 2, 3, 5, 8])
         s = rng.choice(IDENT_START) + "".join(rng.choice(IDENT_CONT) for _ in range(n - 1))
+        if rng.random() < 0.25:
+            s = near_keyword(rng)
+            if not s or s[0] in "0123456789":
+                continue
         if s not in KEYWORDS and s not in ("L", "u", "U", "u8"):
             return s
 
